@@ -220,6 +220,9 @@ class Ctx:
 
     # -- obligations ------------------------------------------------------------
     def oblige(self, kind, label, goal, meta=None, expect_sat=False):
+        if goal is True:
+            self.n_trivial = getattr(self, "n_trivial", 0) + 1     # decided by evaluation, not counted
+            return None
         if isinstance(goal, bool):
             goal = z3.BoolVal(goal)
         path = "".join("T" if d else "F" for d in self.decisions)
